@@ -101,11 +101,17 @@ def run(ctx):
         for ticks in (False, True):
             with warnings.catch_warnings():
                 warnings.simplefilter("ignore")
+                # history before the plot: the last recovery call on the object was the density-based one (the curves drawn
+                # must still be the flux-based recovery factor the helpers document)
+                if c["kind"] == "single":
+                    res.recovery_factor(density=True)
                 fig, ax = plt.subplots()
                 plotting.plot_recovery_factor(res, ax=ax, change_ticks=ticks)
                 (x, y), = line_data(ax)
                 scale_name = ax.get_xscale()
                 plt.close(fig)
+                if c["kind"] == "single":
+                    res.recovery_factor(density=True)
                 fig, ax = plt.subplots()
                 with np.errstate(all="ignore"):
                     plotting.plot_recovery_rate(res, ax=ax, change_ticks=ticks)
